@@ -184,10 +184,10 @@ PROPS["C10"] = {
     "level": "proof",
     "tools": TOOLS,
     "technique": "Lean 4 proof (every table-cropping routine against the naive per-sample expansion; cut point = number of samples starting before the end time; interleaved chunk layout) + model-vs-tool correspondence on the tables of the file the built mp4ff-crop binary writes + independent raw-byte oracle",
-    "level_text": "Model lean/Mp4ff/Model/Crop.lean transcribes cmd/mp4ff-crop/main.go (findEndTime, findTrakEnds, cropStts/Stss/Ctts/Stsc/Stsz/Sdtp, fillTrakOutsAndByteRanges, byteRanges.addRange; Model/CropHdr.lean: the mvhd/tkhd/elst duration updates of writeUptoMdat) on the proved sample-table queries of C09; theorems in Props/C10.lean. Tie: the binary is built from the working tree on every run; for a sample of successful runs the tables of the input go through the model's `cropAll` and the result (k per track, every cropped table, every new chunk offset, the merged byte ranges; op `crophdr`: movie/track header durations and edit-list entries) is compared with the tables parsed from the output file. Direct oracle on every run: independent raw-byte expansion of input and output (own box walker and table parsing), expected k per track from the statement with exact rational arithmetic, prefix equality of bytes/durations/offsets/sync flags, chunk offsets inside the new mdat, mdat tiled exactly, header durations not above the originals.",
+    "level_text": "Model lean/Mp4ff/Model/Crop.lean transcribes cmd/mp4ff-crop/main.go (findEndTime, findTrakEnds, cropStts/Stss/Ctts/Stsc/Stsz/Sdtp, fillTrakOutsAndByteRanges, byteRanges.addRange; Model/CropHdr.lean: the mvhd/tkhd/elst duration updates of writeUptoMdat) on the proved sample-table queries of C09; theorems in Props/C10.lean. Tie: the binary is built from the working tree on every run; for a sample of successful runs the tables of the input go through the model's `cropAll` and the result (k per track, every cropped table, every new chunk offset, the merged byte ranges; op `crophdr`: movie/track header durations and edit-list entries) is compared with the tables parsed from the output file; op `cropmdat` (small files of every input family): the model's new mdat payload `copied file (mergeRanges pieces)` — the object of `place_spec` / `mergeRanges_copied` — is compared byte for byte with the payload of the mdat the tool wrote (writeMdat). Inputs include files whose chunks are stored in any order inside mdat and files with additional top-level boxes (free/skip/uuid, empty mdat) around moov and the media; the model's layout (`pickMin`/`layout`) and `place_spec` assume no order of the chunk offsets. Direct oracle on every run: independent raw-byte expansion of input and output (own box walker and table parsing), expected k per track from the statement with exact rational arithmetic, prefix equality of bytes/durations/offsets/sync flags, chunk offsets inside the new mdat, mdat tiled exactly, header durations not above the originals.",
     "level_note": "Trusted: Lean kernel, allowed axioms, hand transcription validated by the correspondence; the tool is package main, observed only through its output file (the replay re-runs the binary).",
     "trusted": ["Model/Crop.lean + Model/CropHdr.lean hand transcription of cmd/mp4ff-crop/main.go", "the built binary is the observation point (no source hook)"],
-    "unmodelled": ["mdhd durations (the tool leaves them unchanged: direct oracle only)", "CLI flag parsing, file I/O"],
+    "unmodelled": ["mdhd durations (the tool leaves them unchanged: direct oracle only)", "position of the new mdat in the output (updateChunkOffsets sums the non-mdat top-level boxes; the model takes the payload start from the output file and predicts every chunk offset relative to it; direct oracle: offsets inside the one mdat, bytes equal)", "CLI flag parsing, file I/O"],
     "partial": [],
     "assumptions": ["table sums below 2^32 / 2^64", "chunk offsets below 2^62 (the tool's sentinel)"],
 }
